@@ -2,7 +2,7 @@
 from . import containers as C
 from . import mgrmon
 from . import programs as P
-from .shadow import Shadow
+from .shadow import Shadow  # noqa: re-exported
 from .values import canon, signed_zero_differs
 
 STATS = {"assignments_compared": 0, "locations_compared": 0, "signed_zero_differences": 0}
